@@ -194,17 +194,24 @@ func runC26(op string) string {
 	}
 	ls := mockledger.NewLedgerStateBuilder().Build()
 	pp := g1Pparams(era, g1PP{MinFeeA: 44, MinFeeB: 155381, MaxTxSize: 16384, Major: 9})
-	okv := 1
-	for _, rule := range g1Rules(era) {
-		e := safeRule(rule, tx, slot, ls, pp)
-		if e == nil {
-			continue
+	verdict := func() int {
+		okv := 1
+		for _, rule := range g1Rules(era) {
+			e := safeRule(rule, tx, slot, ls, pp)
+			if e == nil {
+				continue
+			}
+			var e1 shelley.ExpiredUtxoError
+			var e2 allegra.OutsideValidityIntervalUtxoError
+			if errors.As(e, &e1) || errors.As(e, &e2) {
+				okv = 0
+			}
 		}
-		var e1 shelley.ExpiredUtxoError
-		var e2 allegra.OutsideValidityIntervalUtxoError
-		if errors.As(e, &e1) || errors.As(e, &e2) {
-			okv = 0
-		}
+		return okv
+	}
+	okv := verdict()
+	if v2 := verdict(); v2 != okv {
+		return fmt.Sprintf("IMPURE ok=%d then ok=%d", okv, v2)
 	}
 	return fmt.Sprintf("ok=%d", okv)
 }
